@@ -152,6 +152,12 @@ pub(crate) fn serialize_text<'a, N: Normalizer>(
                 }
                 result.push('>');
             }
+            '\r' => {
+                // a literal carriage return would be read back as a line
+                // feed (https://www.w3.org/TR/xml/#sec-line-ends)
+                change = true;
+                result.push_str("&#13;")
+            }
             _ => result.push(c),
         }
     }
